@@ -13,6 +13,8 @@ REQUIRED_THEOREMS = [
     "C09.lookahead_bound_partial",
     "C09.lookahead_unbounded_counterexample",
     "C09.auto_batch_size_at_most_doubles",
+    "C09.sequential_is_lazy",
+    "C09.sequential_no_pull_after_failure",
 ]
 TRUSTED_EXTRA = [
     "M1 granularity: completion callbacks are atomic and happen at hook points of the caller (configure, compute_batch_size, sleep, consumer "
